@@ -2,7 +2,8 @@
    Pinned statements: `Check` lines pin the exact statements proved in Proofs/ShuffleSpec.v. *)
 From Coq Require Import ZArith Znumtheory List.
 From Strand Require Import Model.Outcome Model.Codec Model.Backend Model.Zkp Model.Shuffler
-  Proofs.Laws Proofs.ShuffleSpec.
+  Proofs.Laws Proofs.ShuffleSpec
+  Base.ZUtil Base.ZpField Base.Edwards Model.Ristretto Model.RistrettoFast Model.RBackend Proofs.PrimeCerts Proofs.RistrettoGroup Proofs.EdwardsBackend.
 Import ListNotations.
 Open Scope Z_scope.
 
@@ -60,3 +61,16 @@ Proof. exact check_proof_s_hats_binding. Qed.
 Print Assumptions C04_chain_responses_binding.
 Print Assumptions check_proof_s1_binding.
 Print Assumptions check_proof_s4_binding.
+
+(* the decision characterisation holds outright (no hypothesis) for the curve25519 Edwards group with the ristretto scalar
+   ring, the group the model's ristretto arithmetic computes in (Proofs/EdwardsBackend.v) *)
+Theorem C04_edwards_group : forall (K : Kernel) pk h0 hs pf es e_primes label,
+  memA pk -> memA h0 -> Forall memA hs -> Forall (wf_ct (AB K) memA) es -> Forall (wf_ct (AB K) memA) e_primes ->
+  wf_proof (AB K) memA pf -> length hs = length es ->
+  (check_proof (AB K) pk (h0 :: hs) pf es e_primes label = Ok true <->
+   lengths_ok (AB K) pf es e_primes /\
+   tw_equations (AB K) pk h0 hs pf es e_primes
+     (shuffle_us (AB K) es e_primes (pf_cs (AB K) pf) (length es) label)
+     (shuffle_challenge (AB K) es e_primes (pf_cs (AB K) pf) (pf_c_hats (AB K) pf) pk (pf_t (AB K) pf) label)).
+Proof. intro K. exact (check_proof_spec (AB K) memA (AB_laws K)). Qed.
+Print Assumptions C04_edwards_group.
